@@ -283,16 +283,16 @@ func ZZ_C11_WakeupProtocol() {
 	for i, n := 0, zzvf.Choose(3); i < n; i++ {
 		q.Put(zzvf.Int64())
 	}
-	before := len(zzEvents())
 	sz := q.Size()
+	before := len(zzEvents())
 	kind := []string{"put", "putforce"}[zzvf.Choose(2)]
 	if kind == "put" {
 		q.Put(zzvf.Int64())
 	} else {
 		q.PutForce(zzvf.Int64())
 	}
+	ev := zzEvents()[before:] // (taken before the Size() below, which locks the list)
 	added := q.Size() > sz || kind == "putforce"
-	ev := zzEvents()[before:]
 	// outer critical section
 	zzvf.Assert(len(ev) >= 2 && strings.HasPrefix(ev[0], "lock ") && ev[len(ev)-1] == "un"+ev[0], "wakeup/"+kind+"/one-critical-section")
 	if added {
